@@ -134,12 +134,17 @@ structure Cfg where
   relayout : Bool
   /-- `H_no_ext_int` is `self.H[:, :K]` (instead of the base-class getter) -/
   hNoExtViaH : Bool
+  /-- mutators validate / compute before they store anything: a call that raises leaves the
+      object as it was (`init_from_channel_matrix` of the ExtInt class, `randomize`,
+      `set_pathloss`); the design-round code stored `_extIntK` before validating and had no
+      size check in `randomize` / no defined behaviour for a too small path loss -/
+  atomic : Bool
   deriving DecidableEq, Repr
 
 /-- the code at the design round (commit 6fe5d71) -/
-def Cfg.orig : Cfg := ⟨false, false, false⟩
+def Cfg.orig : Cfg := ⟨false, false, false, false⟩
 /-- the repaired code -/
-def Cfg.fixed : Cfg := ⟨true, true, true⟩
+def Cfg.fixed : Cfg := ⟨true, true, true, true⟩
 
 structure State (α : Type) where
   /-- `MultiUserChannelMatrixExtInt` (else `MultiUserChannelMatrix`) -/
@@ -199,6 +204,18 @@ inductive Op (α : Type) where
   /-- `corrupt_data(x[, xe])`; `noise` is the array the noise generator returned
       (already scaled), `none` if the implementation drew none -/
   | corrupt (x xe : List (Mat α)) (noise : Option (Mat α))
+  /-- the `K`, `Nr`, `Nt` properties (and `extIntK`, `extIntNt` on the ExtInt class) -/
+  | readLayout
+  /-- the `pathloss` property -/
+  | readPL
+  /-- the `big_W` property -/
+  | readBigWView
+  /-- the `noise_var` property -/
+  | readNoiseVar
+  /-- the `last_noise` property -/
+  | readLastNoise
+  /-- `corrupt_concatenated_data(X)`: the data already stacked, the output not split -/
+  | corruptCat (X : Mat α) (noise : Option (Mat α))
   deriving Repr
 
 inductive Out (α : Type) where
@@ -208,6 +225,12 @@ inductive Out (α : Type) where
   | mom (H : MoM α)
   /-- per-receiver outputs and `last_noise` -/
   | rx (ys : List (Mat α)) (lastNoise : Option (Mat α))
+  /-- `K`, `Nr`, `Nt`, `extIntNt` -/
+  | layout (k : Nat) (nr nt ntE : List Nat)
+  /-- an array or `None` -/
+  | optMat (M : Option (Mat α))
+  /-- a scalar or `None` -/
+  | optScalar (v : Option α)
   deriving DecidableEq, Repr
 
 section Step
@@ -253,7 +276,12 @@ def doInit (cfg : Cfg) (st : State α) (M : Mat α) (nr nt : List Nat) (K : Nat)
   -- the ExtInt override stores `_extIntK` before the base class validates
   let st0 := { st with extK := L.2.2.2 }
   if initCheck M L.1 L.2.1 L.2.2.1 then (install cfg st0 M L.1 L.2.1 L.2.2.1, .unit)
-  else (st0, .err .ValueError)
+  else (if cfg.atomic then st else st0, .err .ValueError)
+
+/-- `randomize`: "K must be equal to the number of elements in Nr and Nt" (repaired code only) -/
+def randCheck (cfg : Cfg) (isExt : Bool) (nr nt : List Nat) (K : Nat) (ntE : List Nat) : Option PyErr :=
+  let L := fullLayout isExt nr nt K ntE
+  if cfg.atomic && (L.1.length != L.2.2.1 || L.2.1.length != L.2.2.1) then some .ValueError else none
 
 def doRandomize (cfg : Cfg) (st : State α) (drawn : Mat α) (nr nt : List Nat) (K : Nat)
     (ntE : List Nat) : State α × Out α :=
@@ -273,6 +301,23 @@ def doSetPL (cfg : Cfg) (st : State α) (p : Option (Mat α)) (pe : Mat α) : St
     match p with
     | none => { st1 with pl := none, plBig := none }
     | some p => { st1 with pl := some p, plBig := some (expand p st.nr st.nt) }
+
+/-- `_from_small_matrix_to_big_matrix` reads `small[rx, tx]` for `rx < r`, `tx < c` -/
+def plTooSmall (p : Mat α) (r c : Nat) : Bool :=
+  r != 0 && c != 0 && (p.length < r || (p.take r).any fun row => row.length < c)
+
+/-- what `set_pathloss` raises before it stores anything (repaired code): `np.hstack` of a path
+    loss and an interference path loss with different numbers of rows is a `ValueError`, a matrix
+    smaller than `K x _K` an `IndexError` -/
+def setPLCheck (cfg : Cfg) (st : State α) (p : Option (Mat α)) (pe : Mat α) : Option PyErr :=
+  if !cfg.atomic then none else
+  match p with
+  | none => none
+  | some p =>
+    if st.isExt then
+      if p.length != pe.length then some .ValueError
+      else if plTooSmall (List.zipWith (· ++ ·) p pe) st.userK st.k then some .IndexError else none
+    else if plTooSmall p st.k st.k then some .IndexError else none
 
 def doSetNoise (F : Fns α) (st : State α) (v : Option α) : State α × Out α :=
   match v with
@@ -338,6 +383,25 @@ def finishCorrupt (F : Fns α) (st2 : State α) (out1 : Mat α) (ln : Option (Ma
       | none => out1
     (st3, .rx ((List.range st3.userK).map fun k => seg st3.nr out2 k) ln)
 
+/-- tail of `corrupt_concatenated_data`: post filter, no split -/
+def finishCat (F : Fns α) (st2 : State α) (out1 : Mat α) (ln : Option (Mat α)) : State α × Out α :=
+  match readBigW st2 with
+  | (st3, bw) =>
+    (st3, .rx [match bw with
+      | some B => conjTMul F.conj B out1
+      | none => out1] ln)
+
+/-- `corrupt_concatenated_data` : as `corrupt_data` without stacking and splitting -/
+def doCorruptCat (F : Fns α) (st : State α) (X : Mat α) (noise : Option (Mat α)) : State α × Out α :=
+  match readBigH F st with
+  | (st1, .error e) => (st1, .err e)
+  | (st1, .ok bigH) =>
+    let out0 := matMul bigH X
+    match st1.noiseVar, noise with
+    | none, _ => finishCat F { st1 with lastNoise := none } out0 none
+    | some _, some n => finishCat F { st1 with lastNoise := some n } (matAdd out0 n) (some n)
+    | some _, none => (st1, .err .RuntimeError)
+
 def doCorrupt (F : Fns α) (st : State α) (x xe : List (Mat α)) (noise : Option (Mat α)) :
     State α × Out α :=
   let data := if st.isExt then x ++ xe else x            -- np.hstack([data, ext_int_data])
@@ -365,8 +429,14 @@ def getD1 (L : List (Mat α)) (k : Nat) : Out α :=
 
 def step (cfg : Cfg) (F : Fns α) (st : State α) : Op α → State α × Out α
   | .init M nr nt K ntE => doInit cfg st M nr nt K ntE
-  | .randomize M nr nt K ntE => doRandomize cfg st M nr nt K ntE
-  | .setPL p pe => (doSetPL cfg st p pe, .unit)
+  | .randomize M nr nt K ntE =>
+    match randCheck cfg st.isExt nr nt K ntE with
+    | some e => (st, .err e)
+    | none => doRandomize cfg st M nr nt K ntE
+  | .setPL p pe =>
+    match setPLCheck cfg st p pe with
+    | some e => (st, .err e)
+    | none => (doSetPL cfg st p pe, .unit)
   | .setNoise v => doSetNoise F st v
   | .setW w => ({ st with w := w, bigWc := none }, .unit)
   | .readH => let (st1, H) := readH F st; (st1, .mom H)
@@ -402,6 +472,13 @@ def step (cfg : Cfg) (F : Fns α) (st : State α) : Op α → State α × Out α
         | (st1, .error e) => (st1, .err e)
     else (st, .err .AttributeError)
   | .corrupt x xe noise => doCorrupt F st x xe noise
+  | .readLayout =>
+    (st, .layout st.userK st.nrU st.ntU (if st.isExt then st.nt.drop (st.nt.length - st.extK) else []))
+  | .readPL => (st, .optMat st.pl)
+  | .readBigWView => let (st1, bw) := readBigW st; (st1, .optMat bw)
+  | .readNoiseVar => (st, .optScalar st.noiseVar)
+  | .readLastNoise => (st, .optMat st.lastNoise)
+  | .corruptCat X noise => doCorruptCat F st X noise
 
 /-- run a history; outputs in order -/
 def run (cfg : Cfg) (F : Fns α) : State α → List (Op α) → State α × List (Out α)
